@@ -13,6 +13,7 @@ from vlib.common import Sub, Violation, call, close, all_close, O, G
 pyrepseq = boot.import_pyrepseq()
 
 PROPERTY = "C13"
+QUICK_SCALE = 3
 RULE = ("tables of 2-40 rows with 1-2 grouping columns (string or int keys, unsorted, with singleton groups, sometimes only "
         "singleton groups), a label feature column and a sequence feature column, positive group weights (one per group with "
         ">= 2 members, sorted-key order), bases in {2, e, 10, other, None}, bins in {edge vector, 0}, condensed in {T,F}. Oracle: "
@@ -148,6 +149,8 @@ def check(case, rec):
     kw = {}
     if weights is not None and big:
         kw["group_weights"] = [float(x) for x in w]
+        if case.get("weights_as") == "float64_array":
+            kw["group_weights"] = np.array(kw["group_weights"], dtype=np.float64)   # one object, reused by the entropy call below
     got = call("pc_conditional", pyrepseq.pc_conditional, df, by_arg, on, **kw)
     if not close(got, want, 1e-12):
         raise Violation("pc_conditional", f"by={by_arg} on={on} weights={kw.get('group_weights')}: got {got!r}, want {want!r}")
@@ -269,6 +272,8 @@ def check(case, rec):
             raise Violation("stdrenyi2_entropy", f"features={on} base={base}: got {got_s!r}, want {want_s!r}")
     if not before.equals(df):
         raise Violation("mutates-input", "table changed by a grouped statistic")
+    if isinstance(kw.get("group_weights"), np.ndarray) and kw["group_weights"].tolist() != [float(x) for x in w]:
+        raise Violation("mutates-weights", f"the caller's weight array changed to {kw['group_weights'].tolist()}")
 
 
 @st.composite
@@ -300,6 +305,7 @@ def table_case(draw, tier="quick"):
             "index": draw(st.sampled_from(["default", "str", "rev"])), "by_as_list": draw(st.booleans())}
     if draw(st.booleans()):
         case["weights"] = draw(st.lists(st.sampled_from([0.5, 1, 2, 3, 1.25, 10]), min_size=6, max_size=12))
+        case["weights_as"] = draw(st.sampled_from(["list", "float64_array"]))
     if draw(st.booleans()):
         case["base"] = draw(st.sampled_from([2.0, math.e, 10.0, 3.5, None, 0.5]))
     return case
